@@ -120,7 +120,9 @@ func (tb *LTable) Remove(pos int) LValue {
 	if tb.array == nil {
 		return LNil
 	}
-	larray := len(tb.array)
+	// the list ends at the border; the array part may hold nil slots beyond it (t[#t] = nil)
+	larray := tb.Len()
+	tb.array = tb.array[:larray]
 	if larray == 0 {
 		return LNil
 	}
